@@ -667,6 +667,9 @@ def oracle_case(case):
         # ---- per fragment: masses, sequence, label
         tol = 1e-7 if prec is None else 10.0 ** (-prec) * (1 + 1e-9) + 1e-9
         step = 1 if not MASS_BUDGET[0] else max(1, len(frs) // MASS_BUDGET[0])
+        # the model's formula evaluated on the implementation's own data (tables read where they are defined): components_sum
+        tabs = mass_tables(mono) if a0._isotope_mods is None else (None, None, None, None)
+        comps = split_masses(a0, mono) if tabs[0] is not None and tabs[1] is not None else None
         piece_ok = {}
         for idx, f in enumerate(frs):
             s, e = f.start, f.end
@@ -700,6 +703,14 @@ def oracle_case(case):
                 return f'{key}: label {f.label!r}, expected {lab!r}'
             if idx % step:
                 continue
+            if comps is not None and prec is None and tabs[2] is not None and tabs[3] is not None:
+                fa, io, proton, neutron = tabs
+                want_m = (sum(comps[s:e]) + fa['n'] + proton * (f.charge - 1) + io[f.ion_type] + fa[f.ion_type]
+                          + f.isotope * neutron + f.loss)
+                if abs(want_m - f.mass) > 1e-7:
+                    return (f'TABLE {key} ({"monoisotopic" if mono else "average"}): fragment mass {f.mass!r} != sum of its residue '
+                            f'components + PROTON_MASS*(charge-1) + FRAGMENT_ION_ADJUSTMENTS[{f.ion_type!r}] + '
+                            f'FRAGMENT_ADJUSTMENTS[{f.ion_type!r}] + isotope*NEUTRON_MASS + loss = {want_m!r}')
             m = pt.mass(f.sequence, ion_type=f.ion_type, charge=f.charge, isotope=f.isotope, loss=f.loss, monoisotopic=mono,
                         precision=prec)
             if abs(m - f.mass) > tol:
